@@ -4,6 +4,8 @@ CONSTANTS
   MaxLen = 4
   Keys <- SmallKeys
   Mech = "ok"
+  MaxStmts = 1
+  QualOpts <- QNone
 INIT Init
 NEXT Next
 INVARIANTS TypeOK MechEqDecl RowidInv Laws HelperLaws
